@@ -178,6 +178,14 @@ def check_config(ctx, F, tag):
     import c17, c19
     c17.check_config(Relabel(ctx, {"C17.R3.select-arm": "C01.R7.in-word-select"}), F, tag, "portable" if "portable" in tag else "native")
     c19.check_config(Relabel(ctx, {"C19.R1.enable-only-when-absent": "C01.R8.enable-only-when-absent"}), F, tag)
+    # R9 (borrowed): the contracts of the unchecked rank / select / word reads the plain bitvector's queries and iterators end in --
+    # the right support structure for the transformation, a rank below the count, an index below the length -- are discharged at
+    # every call site in bit_vector (C08.R1 restricted to that module): a query that reaches an unchecked read outside its contract
+    # returns a wrong answer before it is a memory-safety problem
+    import c08
+    rl = Relabel(ctx, {"C08.R1.unsafe-site-discharged": ("C01.R9.unchecked-query-contract", lambda k: k.startswith(("<bit_vector::", "bit_vector::")))})
+    c08.check_width_fields(rl, F, tag)
+    c08.ledger(rl, F, tag)
     co = F.body("<bit_vector::BitVector as ops::BitVec<'a>>::count_ones")
     ctx.ob("C01.R3.count-ones-is-cached-field", co.name + tag, loc(co.raw["span"]), self_path(co.term_of_local(0)) == ["ones"], "term-shape", "count_ones() = %s" % tstr(co.term_of_local(0)), nontrivial=False)
     ln = F.body("<bit_vector::BitVector as ops::BitVec<'a>>::len")
